@@ -127,9 +127,15 @@ def _run(case):
         try:
             for op in case["inf"]:
                 S.SCHED.yield_point()
-                events.append(["inf", "sec_b", op[0]])
+                events.append(["inf", "sec_b", "unwrap" if op[0] == "backprop" else op[0]])
                 if op[0] == "infer":
                     vals = im.infer()
+                elif op[0] == "backprop":
+                    # gradient-based planning: the inference thread back-propagates through the module it holds
+                    with im.unwrap() as m:
+                        vals = [p.read() for p in m.parameters()]
+                        for p in m.parameters():
+                            p.grad = 7
                 else:
                     with im.unwrap() as m:
                         vals = [p.read() for p in m.parameters()]
@@ -139,12 +145,57 @@ def _run(case):
             sys.settrace(None)
 
     ver = {"v": 0}
+    ht = None
+    if case.get("via_trainer"):
+        # the training side is a real TorchTrainer (optimizers created in setup(), kept states, sync_models after train())
+        import torch.optim as optim
+        from pamiq_core.model import TrainingModelsDict
+        ttr = sys.modules["pamiq_core.torch.trainer"]
+
+        class Critic(nn.Module):
+            def __init__(self):
+                super().__init__(0, 0)
+
+        class HT(ttr.TorchTrainer):
+            def on_training_models_attached(self):
+                self.mm = self.get_torch_training_model("m")
+                if case.get("critic"):
+                    self.cc = self.get_torch_training_model("critic")      # a train-only model: never synchronised
+
+            def create_optimizers(self):
+                return {"opt": optim.SGD(self.mm.model.parameters(), lr=1)}
+
+            def train(self):
+                phase["t"] = "step"
+                ver["v"] += 1
+                for p in self.mm.model.parameters():
+                    p.grad = 100 + ver["v"]
+                self.optimizers["opt"].step()
+                if case.get("zero_grad"):
+                    self.optimizers["opt"].zero_grad()
+
+            def sync_models(self):
+                phase["t"] = "sync"
+                try:
+                    return super().sync_models()
+                finally:
+                    phase["t"] = "step"
+
+        torch._OBSERVER, torch._YIELD = None, None
+        mods = {"m": tm}
+        if case.get("critic"):
+            mods["critic"] = tmod.TorchTrainingModel(Critic(), has_inference_model=False)
+        ht = HT()
+        ht.attach_training_models(TrainingModelsDict(mods))
+        torch._OBSERVER, torch._YIELD = observer, yielder
 
     def trainer():
         sys.settrace(tracer)
         try:
             for op in case["train"]:
-                if op[0] == "step":
+                if op[0] == "run":
+                    ht.run()
+                elif op[0] == "step":
                     phase["t"] = "step"
                     ver["v"] += 1
                     for i, p in enumerate(tm.model.parameters()):
